@@ -3,16 +3,21 @@ Optional event tracing for the verification harness that lives outside this repo
 
 Inactive unless the environment variable ``ASPHALT_VERIF_HOOKS`` is set to ``trace`` when
 :mod:`asphalt.core` is imported. When active, teardown callbacks are wrapped so that their
-registration, invocation and completion append plain dictionaries to :data:`TRACE`;
+registration, invocation and completion append plain dictionaries to :data:`TRACE`, and
+(:func:`install`) the public operations of :class:`~asphalt.core.Context` report their
+arguments, their outcome and the contents of the contexts' tables when they return;
 nothing else changes.
 """
 
 from __future__ import annotations
 
 import os
-from inspect import isawaitable
+import weakref
+from contextvars import ContextVar
+from functools import wraps
+from inspect import isawaitable, isclass, iscoroutinefunction
 from itertools import count
-from typing import Any, Callable
+from typing import Any, Callable, Union, get_args, get_origin, get_type_hints
 
 ON: bool = os.environ.get("ASPHALT_VERIF_HOOKS") == "trace"
 TRACE: list[dict[str, Any]] = []
@@ -61,3 +66,540 @@ def traced_teardown(
         return retval
 
     return wrapper
+
+
+# ---------------------------------------------------------------------------------------
+# Tracing of the context operations (installed from asphalt.core.__init__ when ON)
+
+_calls = count(1)
+_current_call: ContextVar[tuple[int, ...]] = ContextVar("_verif_call", default=())
+_contexts: list[Any] = []  # weak references to the contexts created since reset()
+_types: dict[Any, int] = {}  # resource types, numbered by equality (as dict keys are)
+_keep: list[Any] = []
+
+
+def reset() -> None:
+    """Forget the contexts and types seen so far (between independent recordings)."""
+    del _contexts[:], _keep[:]
+    _types.clear()
+
+
+def _tid(type_: Any) -> int:
+    try:
+        return _types.setdefault(type_, len(_types) + 1)
+    except TypeError:
+        return 0
+
+
+def _tids(types: Any) -> list[int]:
+    try:
+        return [_tid(t) for t in types]
+    except TypeError:
+        return [0]
+
+
+def _snapshot() -> list[dict[str, Any]]:
+    out: list[dict[str, Any]] = []
+    for ref in _contexts:
+        ctx = ref()
+        if ctx is None:  # collected: nothing holds on to a context because of the tracing
+            continue
+
+        try:
+            res = sorted(
+                [_tid(t), n, id(c.value), bool(c.is_generated)]
+                for (t, n), c in ctx._resources.items()
+            )
+            fac = sorted(
+                [_tid(t), n, id(f)] for (t, n), f in ctx._resource_factories.items()
+            )
+            out.append({"c": id(ctx), "st": ctx._state.name, "res": res, "fac": fac})
+        except Exception as exc:  # the harness reports these as unreadable
+            out.append({"c": id(ctx), "st": "unreadable:" + type(exc).__name__})
+
+    return out
+
+
+def _where() -> dict[str, int]:
+    """The task that is running and the context that is current for it (0: none)."""
+    from . import _context
+
+    try:
+        current = id(_context.current_context())
+    except _context.NoCurrentContext:
+        current = 0
+    except Exception:
+        current = -1
+
+    try:
+        from anyio import get_current_task
+
+        # the coroutine object identifies the task; it is kept, so its id is not reused
+        coro = get_current_task().coro
+        _keep.append(coro)
+        task = id(coro)
+    except Exception:
+        task = 0
+
+    return dict(cur=current, task=task)
+
+
+def _outcome(exc: BaseException | None) -> str:
+    return "ok" if exc is None else type(exc).__name__
+
+
+def _begin() -> tuple[int, tuple[int, ...]]:
+    number = next(_calls)
+    previous = _current_call.get()
+    _current_call.set(previous + (number,))
+    return number, previous
+
+
+def _end(
+    number: int, previous: tuple[int, ...], ev: str, ctx: Any, r: str, **facts: Any
+) -> None:
+    _current_call.set(previous)
+    within = previous[-1] if previous else 0
+    emit(
+        ev=ev,
+        call=number,
+        within=within,
+        ctx=id(ctx),
+        r=r,
+        **facts,
+        **_where(),
+        post=_snapshot(),
+    )
+
+
+def _valid_type(type_: Any) -> bool:
+    return isclass(type_) or get_origin(type_) is not None
+
+
+def _return_types(callback: Any) -> list[int] | None:
+    try:
+        hint = get_type_hints(callback)["return"]
+    except Exception:
+        return None
+
+    import types as stdlib_types
+
+    if get_origin(hint) in (Union, getattr(stdlib_types, "UnionType", Union)):
+        return [_tid(t) for t in get_args(hint)]
+
+    return [_tid(hint)]
+
+
+def install() -> None:
+    from collections.abc import Sequence
+
+    from . import _context, _event
+
+    cls = _context.Context
+    orig_init = cls.__init__
+    orig_aenter = cls.__aenter__
+    orig_aexit = cls.__aexit__
+    orig_add_resource = cls.add_resource
+    orig_add_factory = cls.add_resource_factory
+    orig_get_nowait = cls.get_resource_nowait
+    orig_get = cls.get_resource
+    orig_get_all = cls.get_resources
+    orig_dispatch = _event.Signal.dispatch
+
+    @wraps(orig_init)
+    def __init__(self: Any, parent: Any = None) -> None:
+        orig_init(self, parent)
+        _contexts.append(weakref.ref(self))
+        emit(
+            ev="ctx.new",
+            ctx=id(self),
+            parent=id(self._parent) if self._parent is not None else 0,
+            **_where(),
+            post=_snapshot(),
+        )
+
+    @wraps(orig_aenter)
+    async def __aenter__(self: Any) -> Any:
+        number, previous = _begin()
+        try:
+            retval = await orig_aenter(self)
+        except BaseException as exc:
+            _end(number, previous, "ctx.enter", self, _outcome(exc))
+            raise
+
+        _end(number, previous, "ctx.enter", self, "ok")
+        return retval
+
+    @wraps(orig_aexit)
+    async def __aexit__(self: Any, exc_type: Any, exc_val: Any, exc_tb: Any) -> Any:
+        number, previous = _begin()
+        emit(
+            ev="ctx.exit.begin",
+            call=number,
+            ctx=id(self),
+            how="return" if exc_type is None else exc_type.__name__,
+            st=self._state.name,
+        )
+        try:
+            retval = await orig_aexit(self, exc_type, exc_val, exc_tb)
+        except BaseException as exc:
+            _end(number, previous, "ctx.exit.end", self, _outcome(exc))
+            raise
+
+        _end(number, previous, "ctx.exit.end", self, "ok")
+        return retval
+
+    @wraps(orig_add_resource)
+    def add_resource(
+        self: Any,
+        value: Any,
+        name: Any = "default",
+        types: Any = (),
+        *,
+        description: Any = None,
+        teardown_callback: Any = None,
+    ) -> None:
+        number, previous = _begin()
+        if types:
+            single = (
+                isclass(types)
+                or get_origin(types) is not None
+                or not isinstance(types, Sequence)
+            )
+            given = [types] if single else list(types)
+        else:
+            given = [type(value)]
+
+        _keep.append(value)
+        facts = dict(
+            types=_tids(given),
+            types_valid=all(_valid_type(t) for t in given),
+            name=name if isinstance(name, str) else repr(name),
+            desc=description,
+            value_none=value is None,
+            vid=id(value),
+            cb=teardown_callback is not None,
+            cb_callable=teardown_callback is None or callable(teardown_callback),
+        )
+        try:
+            orig_add_resource(
+                self,
+                value,
+                name,
+                types,
+                description=description,
+                teardown_callback=teardown_callback,
+            )
+        except BaseException as exc:
+            _end(number, previous, "add_resource", self, _outcome(exc), **facts)
+            raise
+
+        _end(number, previous, "add_resource", self, "ok", **facts)
+
+    @wraps(orig_add_factory)
+    def add_resource_factory(
+        self: Any,
+        factory_callback: Any,
+        name: Any = "default",
+        *,
+        types: Any = (),
+        description: Any = None,
+    ) -> None:
+        number, previous = _begin()
+        if types:
+            given = list(types) if isinstance(types, Sequence) else [types]
+            tids: list[int] | None = [(_tid(t) if t is not None else -1) for t in given]
+        else:
+            tids = _return_types(factory_callback)
+
+        _keep.append(factory_callback)
+        facts = dict(
+            types=tids,
+            name=name if isinstance(name, str) else repr(name),
+            desc=description,
+            coroutinefunction=iscoroutinefunction(factory_callback)
+            or iscoroutinefunction(getattr(factory_callback, "func", None)),
+        )
+        try:
+            orig_add_factory(
+                self, factory_callback, name, types=types, description=description
+            )
+        except BaseException as exc:
+            _end(number, previous, "add_factory", self, _outcome(exc), **facts)
+            raise
+
+        fid = 0
+        for factory in self._resource_factories.values():
+            if factory.callback is factory_callback:
+                fid = id(factory)
+
+        _end(number, previous, "add_factory", self, "ok", fid=fid, **facts)
+
+    def _lookup_result(value: Any) -> dict[str, Any]:
+        return {"r": "None"} if value is None else {"r": "val", "vid": id(value)}
+
+    @wraps(orig_get_nowait)
+    def get_resource_nowait(
+        self: Any, type: Any, name: Any = "default", *, optional: Any = False
+    ) -> Any:
+        number, previous = _begin()
+        facts = dict(api="sync", type=_tid(type), name=name, opt=bool(optional))
+        try:
+            value = orig_get_nowait(self, type, name, optional=optional)
+        except BaseException as exc:
+            _end(number, previous, "get", self, _outcome(exc), **facts)
+            raise
+
+        _end(number, previous, "get", self, **_lookup_result(value), **facts)
+        return value
+
+    @wraps(orig_get)
+    async def get_resource(
+        self: Any, type: Any, name: Any = "default", *, optional: Any = False
+    ) -> Any:
+        number, previous = _begin()
+        facts = dict(api="async", type=_tid(type), name=name, opt=bool(optional))
+        try:
+            value = await orig_get(self, type, name, optional=optional)
+        except BaseException as exc:
+            _end(number, previous, "get", self, _outcome(exc), **facts)
+            raise
+
+        _end(number, previous, "get", self, **_lookup_result(value), **facts)
+        return value
+
+    @wraps(orig_get_all)
+    def get_resources(self: Any, type: Any) -> Any:
+        number, previous = _begin()
+        try:
+            found = orig_get_all(self, type)
+        except BaseException as exc:
+            _end(number, previous, "get_all", self, _outcome(exc), type=_tid(type))
+            raise
+
+        rows = sorted([n, id(v)] for n, v in found.items())
+        _end(number, previous, "get_all", self, "ok", type=_tid(type), found=rows)
+        return found
+
+    @wraps(orig_dispatch)
+    def dispatch(self: Any, event: Any) -> None:
+        if isinstance(event, _context.ResourceEvent) and hasattr(self, "_instance"):
+            calls = _current_call.get()
+            emit(
+                ev="res.event",
+                during=calls[-1] if calls else 0,
+                src=id(self._instance()),
+                types=_tids(event.resource_types),
+                name=event.resource_name,
+                desc=event.resource_description,
+                fac=bool(event.is_factory),
+            )
+
+        orig_dispatch(self, event)
+
+    # ComponentContext delegates to the context it was created in; record what it was
+    # asked for, so that the delegated call (recorded above, "within" this one) can be
+    # compared with it
+    from . import _component
+
+    ccls = _component.ComponentContext
+    orig_cinit = ccls.__init__
+
+    @wraps(orig_cinit)
+    def cinit(self: Any, *args: Any, **kwargs: Any) -> None:
+        orig_cinit(self, *args, **kwargs)
+        # a component context is a view of the context it delegates to
+        emit(ev="ctx.view", ctx=id(self), of=id(self._context))
+
+    ccls.__init__ = cinit  # type: ignore[method-assign]
+    orig_cadd = ccls.add_resource
+    orig_cadd_factory = ccls.add_resource_factory
+
+    def _component_facts(self: Any, name: Any, description: Any) -> dict[str, Any]:
+        return dict(
+            name=name if isinstance(name, str) else repr(name),
+            desc=description,
+            state=self._component_state.name,
+            default_name=self._default_resource_name,
+        )
+
+    @wraps(orig_cadd)
+    def cadd(
+        self: Any,
+        value: Any,
+        name: Any = "default",
+        types: Any = (),
+        *,
+        description: Any = None,
+        teardown_callback: Any = None,
+    ) -> None:
+        number, previous = _begin()
+        facts = _component_facts(self, name, description)
+        facts["cb"] = teardown_callback is not None
+        try:
+            orig_cadd(
+                self,
+                value,
+                name,
+                types,
+                description=description,
+                teardown_callback=teardown_callback,
+            )
+        except BaseException as exc:
+            _current_call.set(previous)
+            emit(ev="comp.add", call=number, fac=False, r=_outcome(exc), **facts)
+            raise
+
+        _current_call.set(previous)
+        emit(ev="comp.add", call=number, fac=False, r="ok", **facts)
+
+    @wraps(orig_cadd_factory)
+    def cadd_factory(
+        self: Any,
+        factory_callback: Any,
+        name: Any = "default",
+        *,
+        types: Any = (),
+        description: Any = None,
+    ) -> None:
+        number, previous = _begin()
+        facts = _component_facts(self, name, description)
+        if types:
+            given = list(types) if isinstance(types, Sequence) else [types]
+            facts["types"] = [(_tid(t) if t is not None else -1) for t in given]
+        else:
+            facts["types"] = _return_types(factory_callback)
+
+        try:
+            orig_cadd_factory(
+                self, factory_callback, name, types=types, description=description
+            )
+        except BaseException as exc:
+            _current_call.set(previous)
+            emit(ev="comp.add", call=number, fac=True, r=_outcome(exc), **facts)
+            raise
+
+        _current_call.set(previous)
+        emit(ev="comp.add", call=number, fac=True, r="ok", **facts)
+
+    # lookups through a component context: what the caller finally got
+    orig_cget = ccls.get_resource
+    orig_cget_nowait = ccls.get_resource_nowait
+
+    def _cget_event(self: Any, api: str, type: Any, name: Any, optional: Any, **result: Any) -> None:
+        emit(
+            ev="comp.get",
+            ctx=id(self._context),
+            api=api,
+            type=_tid(type),
+            name=name,
+            opt=bool(optional),
+            **result,
+            **_where(),
+        )
+
+    @wraps(orig_cget)
+    async def cget(
+        self: Any, type: Any, name: Any = "default", *, optional: Any = False
+    ) -> Any:
+        try:
+            value = await orig_cget(self, type, name, optional=optional)
+        except BaseException as exc:
+            _cget_event(self, "async", type, name, optional, r=_outcome(exc))
+            raise
+
+        _cget_event(self, "async", type, name, optional, **_lookup_result(value))
+        return value
+
+    @wraps(orig_cget_nowait)
+    def cget_nowait(
+        self: Any, type: Any, name: Any = "default", *, optional: Any = False
+    ) -> Any:
+        try:
+            value = orig_cget_nowait(self, type, name, optional=optional)
+        except BaseException as exc:
+            _cget_event(self, "sync", type, name, optional, r=_outcome(exc))
+            raise
+
+        _cget_event(self, "sync", type, name, optional, **_lookup_result(value))
+        return value
+
+    ccls.get_resource = cget  # type: ignore[assignment]
+    ccls.get_resource_nowait = cget_nowait  # type: ignore[assignment]
+
+    # service tasks: what a component context was asked to start against what it asked
+    # the context to start
+    orig_start_service = cls.start_service_task
+    orig_cstart_service = ccls.start_service_task
+
+    def _action(teardown_action: Any) -> str:
+        if teardown_action is None or isinstance(teardown_action, str):
+            return repr(teardown_action)
+
+        return "callable:%x" % id(teardown_action)
+
+    @wraps(orig_start_service)
+    async def start_service_task(
+        self: Any, func: Any, name: Any, *, teardown_action: Any = "cancel"
+    ) -> Any:
+        number, previous = _begin()
+        facts = dict(func=id(func), name=name, action=_action(teardown_action))
+        try:
+            retval = await orig_start_service(
+                self, func, name, teardown_action=teardown_action
+            )
+        except BaseException as exc:
+            _current_call.set(previous)
+            emit(
+                ev="svc.start",
+                call=number,
+                within=previous[-1] if previous else 0,
+                ctx=id(self),
+                r=_outcome(exc),
+                **facts,
+            )
+            raise
+
+        _current_call.set(previous)
+        emit(
+            ev="svc.start",
+            call=number,
+            within=previous[-1] if previous else 0,
+            ctx=id(self),
+            r="ok",
+            **facts,
+        )
+        return retval
+
+    @wraps(orig_cstart_service)
+    async def cstart_service_task(
+        self: Any, func: Any, name: Any, *, teardown_action: Any = "cancel"
+    ) -> Any:
+        number, previous = _begin()
+        facts = dict(func=id(func), name=name, action=_action(teardown_action))
+        try:
+            retval = await orig_cstart_service(
+                self, func, name, teardown_action=teardown_action
+            )
+        except BaseException as exc:
+            _current_call.set(previous)
+            emit(ev="comp.svc", call=number, r=_outcome(exc), **facts)
+            raise
+
+        _current_call.set(previous)
+        emit(ev="comp.svc", call=number, r="ok", **facts)
+        return retval
+
+    cls.start_service_task = start_service_task  # type: ignore[method-assign]
+    ccls.start_service_task = cstart_service_task  # type: ignore[method-assign]
+    ccls.add_resource = cadd  # type: ignore[method-assign]
+    ccls.add_resource_factory = cadd_factory  # type: ignore[method-assign]
+    cls.__init__ = __init__  # type: ignore[method-assign]
+    cls.__aenter__ = __aenter__  # type: ignore[method-assign]
+    cls.__aexit__ = __aexit__  # type: ignore[method-assign]
+    cls.add_resource = add_resource  # type: ignore[method-assign]
+    cls.add_resource_factory = add_resource_factory  # type: ignore[method-assign]
+    cls.get_resource_nowait = get_resource_nowait  # type: ignore[assignment]
+    cls.get_resource = get_resource  # type: ignore[assignment]
+    cls.get_resources = get_resources  # type: ignore[method-assign]
+    _event.Signal.dispatch = dispatch  # type: ignore[method-assign]
